@@ -130,8 +130,11 @@ TypeOK ==
   /\ currentID \in Nat /\ generatedAt \in 0 .. now
   /\ DOMAIN keys \subseteq 1 .. currentID
   /\ \A i \in DOMAIN keys : keys[i].na = keys[i].nb + V /\ keys[i].nb <= now
+\* (purging is lazy: an expired key may linger in the map until the next
+\* renewal; it is never returned because Get re-checks the validity)
 CurrentPresent == Present(currentID) /\ keys[currentID].nb = generatedAt
-\* purging is lazy: an expired key may linger in the map but is never returned
+\* identifiers are handed out in strictly increasing order (stronger than the
+\* property's "never repeat"; the monitor only uses IdsUnique below)
 IdsIncreasing == [][currentID' >= currentID /\
                     \A i \in DOMAIN keys' \ DOMAIN keys : i > currentID]_vars
 
